@@ -34,10 +34,12 @@ DesignatedFails(L, ev) ==
            allp == [i \in 1..(2 * n) |-> ev.pts[(i + 1) \div 2][IF i % 2 = 1 THEN 1 ELSE 2]]
            mx == MaxAbsSeq([i \in 1..(2 * n) |-> MaxAbsV(allp[i])], 1)
            S2 == Sq(Mul(Sum1M(L), Add(mx, mx)))
+           \* (allowance relative to the scale of the DIFFERENCE of the two points, not to their magnitude)
+           Sd2(i) == LET m == MaxAbsV(DM!VSub(ev.pts[i][1], ev.pts[i][2])) IN Sq(Mul(Sum1M(L), Add(m, m)))
        IN CF("C04.pairs_distance_is_of_designated_points",
              \A i \in 1..n : ~IsNeg(ev.d[i]) /\
                  Approx(Sq(ev.d[i]), DM!Dot(DM!MatVec(L, DM!VSub(ev.pts[i][1], ev.pts[i][2])),
-                                            DM!MatVec(L, DM!VSub(ev.pts[i][1], ev.pts[i][2]))), 2, 3, S2))
+                                            DM!MatVec(L, DM!VSub(ev.pts[i][1], ev.pts[i][2]))), 2, 3, Sd2(i)))
 PairsEx(ev) == {"C04.threshold_unchanged_by_queries", "C04.pairs_predict", "C04.pairs_decision_is_negated_distance"}
                \cup (IF ev.has_score THEN {"C04.pairs_score_is_auc"} ELSE {})
 
